@@ -366,14 +366,22 @@ class Session:
         else:
             res = self.classify(err)
         grepo = []
+        def shown(m):
+            """string models of earlier loads are not reported (see LoaderRepo!Summary)"""
+            lb = self.label(m)
+            return not (lb["f"] == "~" and lb["a"] != self.attempt)
+
         for rid, repo in sorted(self.repo_of.items()):
             for k, m in repo.all_models.filename_to_model.items():
-                grepo.append({"r": rid, "f": self.repo_key(k, m), "m": self.label(m)})
+                if shown(m):
+                    grepo.append({"r": rid, "f": self.repo_key(k, m), "m": self.label(m)})
         incl, local, params, tg = [], [], [], []
         if err is None:
             models = []
             if hasattr(model, "_tx_model_repository"):
                 for k, m in model._tx_model_repository.all_models.filename_to_model.items():
+                    if not shown(m):
+                        continue
                     models.append(m)
                     lb = self.label(m)
                     want = "~" + str(lb["a"]) if lb["f"] == "~" else lb["f"]
@@ -621,7 +629,7 @@ LETTERS = ["a", "b", "c", "d", "e", "f"]
 def random_scenario(rng, profile):
     """A seeded-random scenario inside the fragment the module is stated for:
     at most one injected fault; a duplicate definition only as that fault and only for a
-    name no other model defines; with RREL every file that imports has a reference; string
+    name no other model defines; with RREL every file has a reference; string
     loads without a file name only with GlobalRepo providers or for models without imports."""
     n = rng.randint(3, 6) if profile != "C27" else rng.randint(1, 4)
     files = LETTERS[:n]
@@ -670,7 +678,7 @@ def random_scenario(rng, profile):
         if profile in ("C28", "C18") and rng.random() < 0.04:
             r.append("zz")                     # an unknown name that is not the injected fault
             clean = False
-        if not r and (imports[f] or rng.random() < 0.5):
+        if not r and (imports[f] or kind == "rrel" or rng.random() < 0.5):
             r = ["u" + f]
         rng.shuffle(r)
         cut = rng.randint(0, len(r)) if rng.random() < (0.6 if profile == "C28" else 0.3) else len(r)
@@ -850,8 +858,8 @@ ASSUMPTIONS = [
     "failing processors are harness callables raising on elements named bado / badm; a reference named pp "
     "is postponed for ever by a user-level provider wrapped around the provider under test (not with RREL)",
     "fragment: at most one injected fault per scenario; a duplicate definition only as that fault and only "
-    "for a name defined in one file; with RREL every file that has imports has a reference (imports are "
-    "loaded per reference there); model_from_str without file name only for models without imports under "
+    "for a name defined in one file; with RREL every file has a reference (models are connected to the "
+    "repositories per reference there); model_from_str without file name only for models without imports under "
     "ImportURI providers; imported files exist; the glob pattern matches at least one file",
     "where the documents do not decide, the module allows every choice: order of globbed files, which of "
     "several loaded models defining a name is the target, which of several offending references is reported, "
